@@ -12,7 +12,7 @@ RULE = ('a real backup (backup_auto_folders + backup_container, real rsync) runs
         'connection keeps SQLite from ever checkpointing the WAL. A backup that returned successfully is opened as a Container: every object that existed '
         'at backup start reads back exactly, every listed key hashes to itself, validate() is clean. Distinct = (placement plan, mutator ops, '
         'pack target, incremental).')
-ASSUMPTIONS = ['placements are at phase boundaries of the backup (the inside of one rsync run is not controlled in this tier)',
+ASSUMPTIONS = ['quick: placements are at phase boundaries of the backup; thorough additionally overlaps the client with the running rsync of the loose, packs and final copies (real time, not controlled at file granularity)',
                'rsync 3.x is installed (otherwise the check is inconclusive)', 'a backup that raises BackupError is vacuous and counted separately']
 TECHNIQUE = 'runtime monitoring under a deterministic scheduler: real rsync backups with the concurrent client placed at enumerated phase/I-O boundaries; backup opened and validated as a container'
 
@@ -33,6 +33,10 @@ def run(ctx):
     cases.append({'seed': ctx.seed * 1009 + 6000, 'incremental': False, 'reader': False, 'target': 4 * 1024 ** 3,
                   'mut_ops': [['add', 3], ['pack', 'no', False, False], ['clean'], ['add', 1], ['pack', 'yes', True, False]],
                   'nk': ctx.pick(1, 6), 'pair_p': 1.0, 'special_p': 1.0, 'ntriples': ctx.pick(0, 4)})
+    if not ctx.quick:
+        # thorough: the client also runs INSIDE the loose copy, the packs copy and the final copy (real overlap with the running rsync)
+        for i in range(12):
+            cases.append({'seed': ctx.seed * 1009 + 7000 + i, 'nk': 3, 'pair_p': 0.0, 'special_p': 0.0, 'ntriples': 0, 'during': [0, 3, 4]})
     ctx.map(backuplab.run_cases, cases)
 
 
